@@ -52,3 +52,13 @@ Theorem C03_alpha_bounds : forall cs s e ans, cs <> [] ->
   ideal_seq KAlpha (filter (in_range (lo ++ [0]) (hi ++ [0])) cs) ans.
 Proof. exact alpha_bounds. Qed.
 Print Assumptions C03_alpha_bounds.
+
+(* the regenerated tie: rangeScan() of tree.go (prologue and closure), translated from the Go AST on every run
+   (Gen/IterGen.v), IS Model.Iter.walk with range_leaf_act and expand_range (range_search ts te) -- for every budget,
+   every raw tree satisfying the invariant and all bounds: same calls, same delivered leaves, same status, no panic *)
+From GoArt Require Import Model.Iter Model.PoolTree Proofs.PoolTreeFacts Model.GoTree Gen.IterGen Proofs.TranslateIterFacts.
+Theorem C03_regenerated_rangeScan : forall fuel t gs ge ts te ans, xtwf t ->
+  ires_abs (g_rangeScan fuel (Some t) gs ge ts te ans) =
+  Some (walk (range_leaf_act gs ge) (expand_range (range_search ts te)) fuel [(tabs t, 0%nat)] ans 0 []).
+Proof. exact gen_rangeScan_eq. Qed.
+Print Assumptions C03_regenerated_rangeScan.
